@@ -18,7 +18,7 @@ LEVEL_NOTE = ("Both server stacks: in-process (IdleReleaseDecorator + Persistenc
 DESIGN_REF = "§5 C36"
 RULE = "case = (program, idle_timeout, send schedule, store); distinct = hash of the scenario; non-trivial = a release happened and a later send reloaded the run"
 REQUIRED_REACH = ["scenario", "released_checked", "not_released_early_checked", "send_before_release_kept_in_memory", "reload_after_release", "finished_after_reload",
-                  "store_sqlite", "store_memory", "slow_store", "stack_inproc", "stack_dbos_sub", "idle_after_a_delayed_retry"]
+                  "store_sqlite", "store_memory", "slow_store", "stack_inproc", "stack_dbos_sub", "idle_after_a_delayed_retry", "released_with_a_long_tick_history"]
 ASSUMPTIONS = ["DBOS half decided on the substitute-engine stack only (see level_note)"]
 
 
@@ -38,6 +38,9 @@ def gen_case(seed):
         spec, keys = ic.gen_program(rnd, retry_delay=rnd.choice([0.3, 0.6, 1.5]))
         for it in spec["steps"][0]["acts"][0]["items"]:
             it["lat"] = [0]
+    elif rnd.random() < 0.25:
+        # a run with a long history (> 100 persisted ticks) before it goes idle
+        spec, keys = ic.gen_program(rnd, warmup=rnd.choice([40, 70]))
     else:
         spec, keys = ic.gen_program(rnd)
     spec["sched_seed"] = seed
@@ -88,6 +91,8 @@ def run_one(case, acc):
     acc.hit("stack_" + case.get("stack", "inproc"))
     if case["spec"]["meta"].get("retry_delay") is not None:
         acc.hit("idle_after_a_delayed_retry")
+    if any(s_["name"] == "warm" for s_ in case["spec"]["steps"]):
+        acc.hit("released_with_a_long_tick_history")
     wit["stack"] = case.get("stack", "inproc")
     obs, cs = ic.run_scenario(scn)
     acc.case()
